@@ -1,20 +1,21 @@
-\* C06 thorough (safety): 3 nodes, 2 ids, clock 0..1, no tombstone collection, 2 CAS, 1 fault
-\* (partition or restart).
+\* C06 thorough (two keys): 2 nodes x 2 keys x 1 entry id each (the same content name under both keys),
+\* clock 0..1, 3 CAS; both keys share each node's two broadcast queues; a broadcast supersedes only
+\* queued broadcasts of its own key.
 CONSTANTS
-  N = 3
-  NI = 2
-  NK = 1
+  N = 2
+  NI = 1
+  NK = 2
   MaxClock = 1
   Retention = 0
   T = 1
-  MaxCas = 2
-  MaxFaults = 1
+  MaxCas = 3
+  MaxFaults = 0
   LiveStates = {"ACTIVE"}
-  WatchNodes = {1, 2, 3}
+  WatchNodes = {1, 2}
   HoldNodes = {}
-  AllowRestart = TRUE
+  AllowRestart = FALSE
   AllowGarbage = FALSE
-  AllowPartition = TRUE
+  AllowPartition = FALSE
   AllowJunkPP = FALSE
   GateNodes = {}
   InboxCap = 1
